@@ -60,8 +60,11 @@ struct Val
 static uint64_t maskbits(uint64_t v, unsigned bits) { return bits >= 64 ? v : (v & ((1ULL << bits) - 1)); }
 static int64_t sext64(uint64_t v, unsigned bits) { if (bits >= 64) return (int64_t)v; uint64_t m = 1ULL << (bits - 1); v = maskbits(v, bits); return (int64_t)((v ^ m) - m); }
 static Val mk_int(unsigned bits, uint64_t c) { Val v; v.bits = bits; v.c = maskbits(c, bits); return v; }
+static double T_SIMPLIFY = 0, T_COPY = 0, T_ENUM = 0, T_MODEL = 0;
+struct Timer { double &acc; std::chrono::steady_clock::time_point t0; Timer(double &a) : acc(a), t0(std::chrono::steady_clock::now()) {} ~Timer() { acc += std::chrono::duration<double>(std::chrono::steady_clock::now() - t0).count(); } };
 static Val mk_sym(unsigned bits, const z3::expr &e)
 {
+  Timer tm(T_SIMPLIFY);
   z3::expr s = e.simplify();
   Val v; v.bits = bits;
   if (s.is_numeral()) { uint64_t c = 0; s.is_numeral_u64(c); v.c = maskbits(c, bits); return v; }
@@ -298,6 +301,7 @@ static z3::check_result solve(State &s, const z3::expr *extra, std::shared_ptr<z
 static int model_truth(State &s, const z3::expr &c)
 {
   if (!s.model) return -1;
+  Timer tm(T_MODEL);
   z3::expr v = s.model->eval(c, true);
   if (v.is_true()) return 1;
   if (v.is_false()) return 0;
@@ -406,8 +410,66 @@ static uint64_t eval_under(const Support &sp, const z3::expr &e, uint64_t a)
   return c;
 }
 
+// variable sets of constraints (cached by ast id; asts are pinned by eid())
+static std::map<unsigned, std::set<unsigned>> *VARSETS;
+static void collect_var_ids(const z3::expr &e, std::set<unsigned> &seen, std::set<unsigned> &out)
+{
+  unsigned id = Z3_get_ast_id(Z, e);
+  if (seen.count(id)) return;
+  seen.insert(id);
+  if (e.is_const() && !e.is_numeral()) { if (!e.is_true() && !e.is_false()) out.insert(id); return; }
+  if (!e.is_app()) return;
+  for (unsigned i = 0; i < e.num_args(); i++) collect_var_ids(e.arg(i), seen, out);
+}
+static const std::set<unsigned> &varset_of(const z3::expr &c)
+{
+  if (!VARSETS) VARSETS = new std::map<unsigned, std::set<unsigned>>();
+  unsigned id = eid(c);
+  auto it = VARSETS->find(id);
+  if (it != VARSETS->end()) return it->second;
+  std::set<unsigned> seen, out; collect_var_ids(c, seen, out);
+  return (*VARSETS)[id] = out;
+}
+// feasible assignments of a small support: by concrete evaluation when the constraints mentioning the
+// support's variables mention nothing else (independence), otherwise by solver enumeration
+static std::vector<uint64_t> feasible_assignments(State &s, const Support &sp)
+{
+  Timer tm(T_ENUM);
+  std::set<unsigned> sv; for (auto &v : sp.vars) sv.insert(Z3_get_ast_id(Z, v));
+  std::vector<z3::expr> rel; bool independent = sp.bits <= 12;
+  if (independent)
+    for (auto &c : s.pc)
+    {
+      const std::set<unsigned> &vs = varset_of(c);
+      bool touches = false, only = true;
+      for (unsigned v : vs) { if (sv.count(v)) touches = true; else only = false; }
+      if (!touches) continue;
+      if (!only) { independent = false; break; }
+      rel.push_back(c);
+    }
+  if (!independent) return feasible_values(s, support_cat(sp), 70000);
+  // cache keyed by the variables and the relevant constraints (all pinned, ids stable)
+  static std::map<std::vector<unsigned>, std::vector<uint64_t>> cache;
+  std::vector<unsigned> key; for (auto &v : sp.vars) key.push_back(eid(v)); key.push_back(0); for (auto &c : rel) key.push_back(eid(c));
+  auto hit = cache.find(key);
+  if (hit != cache.end()) return hit->second;
+  z3::expr conj = Z.bool_val(true); for (auto &c : rel) conj = conj && c;
+  std::vector<uint64_t> out;
+  for (uint64_t a = 0; a < (1ULL << sp.bits); a++)
+  {
+    z3::expr_vector from(Z), to(Z);
+    unsigned shift = sp.bits;
+    for (auto &v : sp.vars) { unsigned w = v.get_sort().bv_size(); shift -= w; from.push_back(v); to.push_back(Z.bv_val((uint64_t)((a >> shift) & ((1ULL << w) - 1)), w)); }
+    z3::expr r = conj.substitute(from, to).simplify();
+    if (r.is_true()) out.push_back(a);
+    else if (!r.is_false()) die("independent constraint did not evaluate to a constant");
+  }
+  cache[key] = out;
+  return out;
+}
+
 // request to re-execute the current instruction under each alternative constraint
-struct ForkReq { std::vector<z3::expr> alts; };
+struct ForkReq { std::vector<z3::expr> alts; bool prechecked = false; };
 // request to terminate the current path quietly (after a reported violation)
 struct PathEnd { const char *why; };
 
